@@ -107,6 +107,12 @@ class StructOracle(Oracle):
                 z = model.zombies.get(uid)
                 discr["removed_by"] = z.get("entry") if z else "never_removed"
                 discr["kind"] = detail.split("/")[0]
+            else:
+                # a node that became reachable again because a new entity took the identifier of one removed through its parent:
+                # what is wrong with that node dates from its time as an orphan (e.g. its type went with the last live user)
+                parts = detail.split(":")[0].split("/")
+                if len(parts) >= 2 and getattr(model, "removed_entry", {}).get(parts[1]) == "parent":
+                    discr["reuses_uid_removed_by"] = "parent"
             raise Violation("C02", "struct_" + rule, f"{detail} (+{len(errs) - 1} more)", discr)
 
 
@@ -315,6 +321,10 @@ class IsolationOracle(Oracle):
         if ok_op:
             for u in created:
                 parents.add(now[u][0])
+                if getattr(model, "removed_entry", {}).get(u) == "parent":
+                    # the new entity took the identifier of one removed through its parent: its node is the one that removal left
+                    # in the file (known finding of C02 / C05), so the creation shows as a change of an existing node
+                    touch.add(u)
             for u in removed:
                 parents.add(pre[u][0])
             for u in set(pre) & set(now):
